@@ -42,7 +42,7 @@ def instances(tier, seed):
             ('MPS', {'fam': 'ML', 'bn': False, 'wtype': 'layer', 'w': [2, 8], 'a': [4, 8], 'mps': {'disable_sampling': True}}, ['none'])]
     if tier == 'thorough':
         cfgs += [('PIT', {'fam': 'T2', 'K0': 2, 'K1': 2, 'T': 3}, ['none', 'discrete_cost']), ('MPS', {'fam': 'MD', 'wtype': 'layer', 'w': [2, 8], 'a': [4, 8]}, ['none', 'temperature', 'hard']),
-                 ('SuperNet', {'n': 3, 'kind': 'mix'}, ['none', 'temperature', 'hard']), ('SuperNet', {'n': 2, 'kind': 'mix', 'blocks': 2}, ['none', 'temperature+hard'])]
+                 ('SuperNet', {'n': 3, 'kind': 'mix'}, ['none', 'temperature', 'hard']), ('SuperNet', {'n': 2, 'kind': 'mix', 'blocks': 2}, ['none', 'temperature'])]
     for method, spec, prefixes in cfgs:
         ident = pitlib.prog_id(spec) if method == 'PIT' else (mpslib.prog_id(spec) if method == 'MPS' else snlib.prog_id(spec))
         for pre in prefixes:
@@ -107,6 +107,11 @@ def symbolify(model, prefix, fresh, ex=None, sym_weights=True, conc_theta=False)
                     mutable = False
                     with torch.no_grad():
                         v = v.clone() + 0.125
+                if fresh and k == 'running_var':
+                    # symbolic variances need sqrt (non-linear axioms); a concrete non-default value is checkpointed instead
+                    mutable = False
+                    with torch.no_grad():
+                        v = v.clone().fill_(4.0)
                 if fresh and k == 'clip_val':
                     # trained clip values: a concrete non-default value (symbolic clip values make the quantiser non-linear and are concretised by
                     # summary()); a restore that forgets them is still visible
@@ -150,6 +155,8 @@ def concrete_case(rec):
         for k in sdA:
             if k.endswith('clip_val'):
                 sdA[k].fill_(3.5)
+            elif k.endswith('running_var'):
+                sdA[k].fill_(4.0)
             elif method == 'MPS' and (k.endswith('.weight') or k.endswith('.bias')):
                 sdA[k].add_(0.125)
             elif method == 'MPS' and spec.get('mps', {}).get('disable_sampling') and k.endswith('theta_alpha') and sdA[k].shape[0] > 1:
@@ -290,6 +297,13 @@ def run_instance(p):
         allv = [v for s_ in syms.values() for v in s_.elems()] + x.elems()
         cons = [v * 8 == z3.ToReal(z3.Int(f'g!{i}')) for i, v in enumerate(allv)] + [v >= -4 for v in allv] + [v <= 4 for v in allv] + [T * 8 == z3.ToReal(z3.Int('gT'))]
         r, m = ex.check(*([bad] if bad is not None else []), *cons, timeout_ms=30000)
+        if r != 'sat' and bad is not None:
+            # cheap search: evaluate the difference on a few grid models of the path
+            for k_ in range(4):
+                rk, mk = ex.check(*cons, *[v >= Fraction(k_, 4) for v in allv[:k_ + 1]], timeout_ms=20000)
+                if rk == 'sat' and z3.is_true(mk.eval(bad, model_completion=True)):
+                    r, m = 'sat', mk
+                    break
         if r != 'sat':
             r, m = ex.check(*([bad] if bad is not None else []))
         if r != 'sat':
